@@ -56,6 +56,7 @@ type script struct {
 	Protocols []string
 	Steps     []exchange
 	CloseCode int
+	CloseKind int // 0 short reason, 1 long reason, 2 invalid code with a long reason, 3 invalid UTF-8 in a long reason
 }
 
 var sizes = []int{0, 1, 10, 60, 65, 100, 125, 126, 127, 128, 200, 300, 1000, 4096, 5000, 70000}
@@ -88,6 +89,7 @@ func makeScript(seed uint64) *script {
 		sc.Steps = append(sc.Steps, ex)
 	}
 	sc.CloseCode = []int{1000, 1001, 3000, 4000}[p.intn(4)]
+	sc.CloseKind = p.intn(4)
 	return sc
 }
 
@@ -142,6 +144,7 @@ func optsString(os []httphead.Option) string {
 }
 
 type side struct {
+	hs     ws.Handshake // retained as returned; looked at again at the end
 	sc     *script
 	conn   net.Conn
 	client bool
@@ -185,7 +188,9 @@ func runClient(sc *script, conn net.Conn, tr *transcript) {
 		return
 	}
 	s.flate = len(hs.Extensions) > 0
+	s.hs = hs
 	s.run()
+	tr.add("final: protocol=%q extensions=%q", s.hs.Protocol, optsString(s.hs.Extensions))
 }
 
 // prefixConn reads pre before the connection.
@@ -257,7 +262,9 @@ func runServer(sc *script, conn net.Conn, tr *transcript) {
 		return
 	}
 	s.flate = len(hs.Extensions) > 0
+	s.hs = hs
 	s.run()
+	tr.add("final: protocol=%q extensions=%q", s.hs.Protocol, optsString(s.hs.Extensions))
 }
 
 func (s *side) run() {
@@ -274,7 +281,16 @@ func (s *side) run() {
 	}
 	// Closing handshake: the client starts it.
 	if s.client {
-		f := ws.NewCloseFrame(ws.NewCloseFrameBody(ws.StatusCode(s.sc.CloseCode), "bye"))
+		code, reason := ws.StatusCode(s.sc.CloseCode), "bye"
+		switch s.sc.CloseKind {
+		case 1:
+			reason = string(bytes.Repeat([]byte("r"), 70+int(s.sc.Seed%50)))
+		case 2:
+			code, reason = 1005, string(bytes.Repeat([]byte("x"), 61+int(s.sc.Seed%60)))
+		case 3:
+			reason = string(bytes.Repeat([]byte("y"), 80)) + "\xff\xfe"
+		}
+		f := ws.NewCloseFrame(ws.NewCloseFrameBody(code, reason))
 		f = ws.MaskFrameInPlace(f)
 		if err := ws.WriteFrame(s.conn, f); err != nil {
 			s.tr.add("close: write: %v", err)
